@@ -100,3 +100,22 @@ func TestParseExamples(t *testing.T) {
 		}
 	}
 }
+
+// A DAG (the same object in two positions) is not a cycle; Src keeps the identity.
+func TestSharingIsNotACycle(t *testing.T) {
+	f := NewFunction(`function(){}`, func(Value, []Value) Value { return Undefined })
+	o := NewObject()
+	o.CreateDataProperty(S("m"), Obj(f))
+	o.CreateDataProperty(S("v"), Num(1))
+	root := NewArray(Obj(o), Obj(o), Obj(f))
+	if got := str(t, Obj(root), Undefined, Undefined); got != `[{"v":1},{"v":1},null]` {
+		t.Errorf("got %s", got)
+	}
+	if got, want := Src(Obj(root)), `(function(){var s0=function(){};var s1=({"m":s0,"v":1});return [s1,s1,s0]})()`; got != want {
+		t.Errorf("Src: got %s want %s", got, want)
+	}
+	o.CreateDataProperty(S("self"), Obj(root))
+	if got := str(t, Obj(root), Undefined, Undefined); got != "TypeError" {
+		t.Errorf("cycle: got %s", got)
+	}
+}
